@@ -10,7 +10,7 @@ from __future__ import annotations
 
 from functools import lru_cache
 
-from ..graphs import G, disjoint_pairs, enum_L, enum_O, identifiable_hedge, identifiable_tp
+from ..graphs import G, disjoint_pairs, enum_L, enum_O, identifiable_hedge, identifiable_tp, line4_queries
 from ..runner import Res
 from ..y0util import V, snapshot, to_y0
 
@@ -26,10 +26,17 @@ def _universe(tier):
     return [g for n in (1, 2, 3, 4) for g in enum_L(n)] + list(enum_O(5, max_edges=6))
 
 
+@lru_cache(maxsize=None)
+def _universe_l4(tier):
+    """Five-node name-ordered ADMGs explored on the line-4 slice of queries only (mc.graphs.line4_queries)."""
+    return [g for g in enum_O(5, max_edges=8 if tier == "quick" else 9) if len(g.di) + len(g.bi) >= 3]
+
+
 def shards(tier):
     n = len(_universe(tier))
     size = 64 if tier == "quick" else 256
-    return [(i, min(i + size, n)) for i in range(0, n, size)]
+    n4 = len(_universe_l4(tier))
+    return [(i, min(i + size, n)) for i in range(0, n, size)] + [("l4", i, min(i + 4096, n4)) for i in range(0, n4, 4096)]
 
 
 def describe(tier):
@@ -39,7 +46,10 @@ def describe(tier):
             if tier == "quick"
             else "graphs: L(1..4) all labelled ADMGs + O(5, <=6 edges) (60 460 five-node ADMGs)"
         )
-        + "; every ordered pair of disjoint non-empty X, Y; entry points identify_outcomes and identify(Identification); graphs up "
+        + "; every ordered pair of disjoint non-empty X, Y; plus five-node name-ordered ADMGs with <="
+        + ("8" if tier == "quick" else "9")
+        + " edges on the line-4 slice of queries (An(Y)=V, line 3 adds nothing, G minus X splits into districts of which at least "
+        "two are proper parts of districts of G: products of several line-7 results; identifiable queries only); entry points identify_outcomes and identify(Identification); graphs up "
         "to 3 nodes also as networkx graphs over string node names",
         "rule": "state = (graph, X, Y); transition = one ID call compared with the identifiability oracle "
         "(Tian-Pearl closure; for n<=4 also the brute-force hedge search) and with input snapshots",
@@ -147,7 +157,15 @@ def check_string_graph(res: Res, g: G):
     res.outcomes["string_graph_ok"] += 1
 
 
-def explore_graph(res: Res, g: G, only=None, tier="thorough"):
+def explore_graph(res: Res, g: G, only=None, tier="thorough", mode="full"):
+    if mode == "l4":
+        qs = [(x, y) for x, y in line4_queries(g) if identifiable_tp(g, x, y)]
+        if not qs:
+            return
+        yg = to_y0(g)
+        for x, y in qs:
+            check_query(res, g, yg, x, y, {"graph": g.to_json(), "X": list(x), "Y": list(y)}, False)
+        return
     yg = to_y0(g)
     if only is None and len(g.nodes) <= 3:
         check_string_graph(res, g)
@@ -162,8 +180,12 @@ def explore_graph(res: Res, g: G, only=None, tier="thorough"):
 
 
 def work(shard, tier, seed):
-    lo, hi = shard
     res = Res()
+    if shard[0] == "l4":
+        for g in _universe_l4(tier)[shard[1] : shard[2]]:
+            explore_graph(res, g, tier=tier, mode="l4")
+        return res
+    lo, hi = shard
     for g in _universe(tier)[lo:hi]:
         explore_graph(res, g, tier=tier)
     return res
